@@ -214,6 +214,14 @@ mod imp {
             w => panic!("bad conc op {}", w),
         }
     }
+    #[cfg(feature = "protobuf")]
+    fn cval(m: &prometheus::proto::Metric) -> f64 {
+        m.get_counter().value()
+    }
+    #[cfg(not(feature = "protobuf"))]
+    fn cval(m: &prometheus::proto::Metric) -> f64 {
+        m.get_counter().get_value()
+    }
     fn cstrs(v: &[String]) -> String {
         crate::fmt::clist(v, |s| crate::fmt::cstr(s))
     }
@@ -419,7 +427,7 @@ mod imp {
                 let mut items: Vec<String> = vec![];
                 for m in mfs[0].get_metric() {
                     let vals: Vec<String> = m.get_label().iter().map(|lp| lp.value().to_string()).collect();
-                    items.push(format!("({},{})", cstrs(&vals), m.get_counter().value() as u64));
+                    items.push(format!("({},{})", cstrs(&vals), cval(m) as u64));
                 }
                 h.marker(format!("ERet {} (RColl [{}])", me, items.join(";")));
             }
